@@ -835,7 +835,13 @@ func (e *Exec) instr(st *State, fr *Frame, ins ssa.Instruction) {
 	case *ssa.Send:
 		e.chanSend(st, fr, x)
 	case *ssa.MakeChan:
-		panic(unsupported("make(chan)"))
+		// a 1-slot channel used as a mutex: created empty, i.e. "held" by its creator until the token is put in
+		if sz, ok := x.Size.(*ssa.Const); !ok || sz.Value == nil || sz.Int64() != 1 {
+			panic(unsupported("make(chan) other than a 1-slot lock channel"))
+		}
+		r := st.NewRef()
+		e.ghSet(st, "chanheld", SBool, r, True)
+		fr.env[x] = r
 	case *ssa.Range, *ssa.Next:
 		panic(unsupported("range over map or string"))
 	default:
